@@ -7,7 +7,7 @@
        num    = (isint base (perts...))            perts: 1 = +eps, 0 = -eps
        cell   = (dt (shape...) (num ...))          dt: 0 int64, 1 float32, 2 float64
        script = (o o o ...)   outcome of the k-th call of the differentiated function, the last one repeats:
-                  (s) scalar | (v n) numpy array of size n | (t n req) tensor | (b) not a number | (x e) raises
+                  (s) scalar | (v n) numpy array of size n | (t n req) tensor | (b) not a number | (x e) raises (e = 1: the harness's exception class, else another)
    answer:
      (ok|key|raise|nonscalar|other  <ncalls>  <final store>  (<store seen at call 0> ...)  ((args of call 0) ...))
    The source flags come from Generated.v. *)
@@ -133,7 +133,7 @@ Definition form_of_sx (x : sx) : option form :=
 Definition sx_of_err (e : err) : sx :=
   match e with
   | EKey _ => sx_w "key"
-  | ERaise _ => sx_w "raise"
+  | ERaise e => if Z.eqb e 1 then sx_w "raise" else sx_w "other"   (* 1 = the harness's own exception class *)
   | ENonScalar => sx_w "nonscalar"
   | EOther => sx_w "other"
   end.
